@@ -280,8 +280,12 @@ class ProbabilisticNode(Node):
         """
         self.next_states.remove(state_to_remove)
         new_next_states = []
+        # when the removed transition carried all the probability, only
+        # zero-probability transitions are left: nothing to redistribute
+        remaining_probability = 1 - state_to_remove[PROBABILITY]
         for _next_state in self.next_states:
-            new_state_probability = _next_state[PROBABILITY] / (1 - state_to_remove[PROBABILITY])
+            new_state_probability = (_next_state[PROBABILITY] / remaining_probability
+                                     if remaining_probability else 0)
             new_next_states.append((new_state_probability, _next_state[NEXT_STATE_IDX]))
         self.next_states = new_next_states
 
